@@ -66,6 +66,8 @@ def run(chk):
     items += eg.collect(chk, ["equal_events"], paths_q=6, walks_q=2, paths_t=40, walks_t=10)
     # waiters nobody else accepts the answer of: a second answer while the woken step is still running is an orphan
     items += eg.collect(chk, ["wait"], paths_q=12, walks_q=3, paths_t=80, walks_t=20, max_ext=3)
+    # an input queued behind an invocation that gives its slot up without a result (suspends in a wait / fails into a retry)
+    items += eg.collect(chk, ["wait_queue"], paths_q=12, walks_q=3, paths_t=60, walks_t=15, max_ext=1)
     items2 = [(l, p, e, emits(tr), s) for (l, p, e, tr, s) in items]
     eg.conform_reducer(chk, items)
     eg.standard_run(chk, "C02", None, {"emit", "step_start", "step_end", "wait_ret", "wait_took", "drained", "pub"}, extra=extra,
